@@ -620,7 +620,9 @@ class _History:
         ref_t = R.t_pg(adv, ll_t)
         if bl_loss_t is not None:
             ref_t = ref_t + bl_loss_t
-        return ref_loss, ref_t, adv_res
+        # the library standardises the advantages with float32 running statistics (Welford + a float32 square
+        # root): their rounding enters every advantage, on top of the rounding of the difference itself
+        return ref_loss, ref_t, adv_res * (10.0 if mode in ("norm", "scale") else 1.0)
 
     def _coords(self, i):
         b0 = self.batch0
@@ -800,13 +802,14 @@ class _History:
                 raise HarnessError(f"inner epoch {e} visited rows {rows}")
         got = float(out["loss"])
         last = st["last"]
-        if not R.close(got, last["total"]):
+        nscale = 30.0 if plan["normalize_adv"] else 1.0   # (A - mean) / std in float32, as for the inner steps
+        if not R.close(got, last["total"], base=1e-5 * nscale):
             self.violate("loss", f"step {self.step_no}: reported loss {got!r}, reference of the last mini-batch "
                          f"{last['total']!r}", "reported_last", got=got, ref=last["total"])
             raise StopRun()
         for key, ref in (("train/surrogate_loss", last["surr"]), ("train/value_loss", last["vl"]),
                          ("train/entropy", last["ent"])):
-            if key in out and not R.close(float(out[key]), ref):
+            if key in out and not R.close(float(out[key]), ref, base=1e-5 * (nscale if "surrogate" in key else 1.0)):
                 self.violate("loss", f"step {self.step_no}: reported {key} = {float(out[key])!r}, reference {ref!r}",
                              "reported_" + key.split("/")[1], got=float(out[key]), ref=ref)
                 raise StopRun()
